@@ -1730,7 +1730,10 @@ class PyCdlib:
                             self.isohybrid_mbr.update_mac(entry_extent,
                                                           enc.entry.sector_count)
                         num_seen_efi += 1
-                    elif enc.platform_id == 0:
+                    elif enc.platform_id == 0 and enc.entry is self.eltorito_boot_catalog.initial_entry:
+                        # The hybrid boot sector loads the boot file of the
+                        # initial entry (the one add_isohybrid() checked);
+                        # further entries for this platform do not concern it.
                         self.isohybrid_mbr.update_rba(entry_extent)
 
                 if already_placed:
